@@ -543,6 +543,23 @@ class Run:
 
         self._orig["offer"] = Workload.get_schedulable_tasks
 
+        # every state change through the Task API (C06): method, state before, state after (also when it raises)
+        def wrap_transition(name):
+            orig = getattr(Task, name)
+            self._orig["tr_" + name] = orig
+
+            def wrapper(task, *a, **kw):
+                pre = task.state.name
+                try:
+                    return orig(task, *a, **kw)
+                finally:
+                    post = task.state.name
+                    if pre != post:
+                        run.mon.append({"ev": "transition", "t": run.label(task), "via": name, "pre": pre, "post": post, "now": us(run.sim._simulator_time) if hasattr(run, "sim") else None})
+
+            setattr(Task, name, wrapper)
+
+
         def offer(wl, time, lookahead=None, preemption=False, retract_schedules=False, worker_pools=None, *a, **kw):
             r = run._orig["offer"](wl, time, *([] if lookahead is None else [lookahead]), preemption, retract_schedules, worker_pools, *a, **kw) if lookahead is not None else run._orig["offer"](wl, time, preemption=preemption, retract_schedules=retract_schedules, worker_pools=worker_pools, *a, **kw)
             if wl is run.sim._workload:
@@ -566,6 +583,8 @@ class Run:
 
         Workload.get_schedulable_tasks = offer
         Task.start, Task.finish, Task.release = start, finish, release
+        for nm in ("release", "schedule", "unschedule", "start", "finish", "cancel", "preempt"):
+            wrap_transition(nm)
         ww.Worker.place_task, ww.Worker.remove_task = place, remove
 
     def remove_monitors(self):
@@ -575,6 +594,8 @@ class Run:
         from workload import Workload
 
         Workload.get_schedulable_tasks = self._orig["offer"]
+        for nm in ("schedule", "unschedule", "cancel", "preempt"):
+            setattr(Task, nm, self._orig["tr_" + nm])
         Task.start, Task.finish, Task.release = self._orig["start"], self._orig["finish"], self._orig["release"]
         ww.Worker.place_task, ww.Worker.remove_task = self._orig["place"], self._orig["remove"]
 
@@ -613,7 +634,7 @@ class Run:
             for ti, t in enumerate(tg._graph.keys()):
                 tasks[f"g{gi}.t{ti}"] = {
                     "name": t.name, "graph": tg.name, "state": t.state.name, "release": us(t.release_time), "deadline": us(t.deadline),
-                    "start": us(t.start_time), "completion": us(t.completion_time), "terminal": bool(t.terminal), "conditional": bool(t.conditional),
+                    "start": us(t.start_time), "completion": us(t.completion_time), "terminal": bool(t.terminal), "conditional": bool(t.conditional), "job_probability": float(t._creating_job.probability),
                     "parents": [f"g{gi}.t{list(tg._graph.keys()).index(p)}" for p in tg._parent_graph.get(t, [])],
                     "children": [f"g{gi}.t{list(tg._graph.keys()).index(c)}" for c in tg._graph[t]],
                     "fits_empty": any(any(w2.can_accomodate_strategy(s2) for s2 in t.available_execution_strategies) for w2 in self.empty_workers()),
